@@ -248,6 +248,69 @@ JoinNums(xs) == IF Len(xs) = 1 THEN NumText(xs[1]) ELSE NumText(xs[1]) \o <<44>>
 \* "(a_1,a_2,...)", at least one component
 VecText(xs) == <<40>> \o JoinNums(xs) \o <<41>>
 
+(* ---- reading vectors / dims back with operator>> (math/detail/one_dimensional_input.hpp): every
+   token - '(' , each component, ',' and ')' - is read with FORMATTED extraction (io/expect.hpp:
+   "Tries to read a value of type Type from _stream", io/extract.hpp: "Uses operator>>"), i.e.
+   leading white space is skipped before each of them.  Position p = characters consumed. *)
+IsWs(c) == c \in {32, 9, 10, 11, 12, 13}
+RECURSIVE WsSkip(_, _)
+WsSkip(t, p) == IF p < Len(t) /\ IsWs(t[p + 1]) THEN WsSkip(t, p + 1) ELSE p
+
+\* expect the character c (skip = white space is skipped first)
+ReadChar(t, p, c, skip) ==
+  LET q == IF skip THEN WsSkip(t, p) ELSE p
+  IN IF q < Len(t) /\ t[q + 1] = c THEN [ok |-> TRUE, p |-> q + 1] ELSE [ok |-> FALSE, p |-> q]
+
+RECURSIVE DigitRun(_, _)
+DigitRun(t, p) == IF p < Len(t) /\ IsDigit(t[p + 1]) THEN DigitRun(t, p + 1) ELSE p
+
+\* a decimal integer (optional '-', digits) after white space
+ReadNum(t, p) ==
+  LET q == WsSkip(t, p)
+      neg == q < Len(t) /\ t[q + 1] = Minus
+      d0 == IF neg THEN q + 1 ELSE q
+      d1 == DigitRun(t, d0)
+  IN IF d1 = d0 THEN [ok |-> FALSE, p |-> q, x |-> [s |-> 0, m |-> <<>>]]
+     ELSE LET m == BigFromDecNat(SubSeq(t, d0 + 1, d1), 1, <<>>)
+          IN [ok |-> TRUE, p |-> d1, x |-> [s |-> IF neg /\ m # <<>> THEN 1 ELSE 0, m |-> m]]
+
+RECURSIVE ReadComponents(_, _, _, _, _)
+ReadComponents(t, p, n, i, acc) ==
+  LET x == ReadNum(t, p) IN
+  IF ~x.ok THEN [ok |-> FALSE, p |-> x.p, xs |-> acc]
+  ELSE IF i = n THEN [ok |-> TRUE, p |-> x.p, xs |-> Append(acc, x.x)]
+  ELSE LET c == ReadChar(t, x.p, 44, TRUE)
+       IN IF ~c.ok THEN [ok |-> FALSE, p |-> c.p, xs |-> acc] ELSE ReadComponents(t, c.p, n, i + 1, Append(acc, x.x))
+
+\* one vector / dim with n components, starting at position p
+ReadVec(t, p, n) ==
+  LET o == ReadChar(t, p, 40, TRUE) IN
+  IF ~o.ok THEN [ok |-> FALSE, p |-> o.p, xs |-> <<>>]
+  ELSE LET cs == ReadComponents(t, o.p, n, 1, <<>>) IN
+       IF ~cs.ok THEN [ok |-> FALSE, p |-> cs.p, xs |-> <<>>]
+       ELSE LET c == ReadChar(t, cs.p, 41, TRUE) IN [ok |-> c.ok, p |-> c.p, xs |-> IF c.ok THEN cs.xs ELSE <<>>]
+
+\* a reader that does NOT skip white space before '(' (vacuity guard of LawVecSeq)
+ReadVecNoSkip(t, p, n) ==
+  LET o == ReadChar(t, p, 40, FALSE) IN
+  IF ~o.ok THEN [ok |-> FALSE, p |-> o.p, xs |-> <<>>]
+  ELSE LET cs == ReadComponents(t, o.p, n, 1, <<>>) IN
+       IF ~cs.ok THEN [ok |-> FALSE, p |-> cs.p, xs |-> <<>>]
+       ELSE LET c == ReadChar(t, cs.p, 41, TRUE) IN [ok |-> c.ok, p |-> c.p, xs |-> IF c.ok THEN cs.xs ELSE <<>>]
+
+RECURSIVE ReadSeqFrom(_, _, _, _, _, _)
+\* reads vectors with the component counts ns one after the other; once a read has failed the
+\* stream is in the fail state and every later read fails.  Result: sequence of [ok, xs]
+ReadSeqFrom(RV(_, _, _), t, p, ns, failed, acc) ==
+  IF ns = <<>> THEN acc
+  ELSE IF failed THEN ReadSeqFrom(RV, t, p, Tail(ns), TRUE, Append(acc, [ok |-> FALSE, ys |-> <<>>]))
+  ELSE LET r == RV(t, p, ns[1])
+       IN ReadSeqFrom(RV, t, r.p, Tail(ns), ~r.ok, Append(acc, [ok |-> r.ok, ys |-> r.xs]))
+
+RECURSIVE WriteSeq(_, _)
+\* separator, value, separator, value, ...
+WriteSeq(seps, vecs) == IF vecs = <<>> THEN <<>> ELSE seps[1] \o VecText(vecs[1]) \o WriteSeq(Tail(seps), Tail(vecs))
+
 \* math/matrix/output.hpp: "The format will contain no new-lines and will be of the form:
 \* ((a,b,c,...),(d,e,f,...),...,...)" - a sequence of parenthesised sequences
 RECURSIVE JoinTexts(_)
